@@ -2006,10 +2006,14 @@ class Judge:
         if light:
             return out
         # ---- c. equal models give equal results
+        # reference for "an equal model": the original's own run from the SAME state. When run 1 and the run after reset
+        # already differ (reported above with its cause, e.g. a base_speed action that reset does not undo), the copy of the
+        # reset model is equal to the model that produced run 2, not to the one that produced run 1.
+        ref = r1 if diff12 is None else r2
         wn.reset_initial_values()
         wc = copy.deepcopy(wn)
         rc = self._run(wc, spec)
-        dc = self._diff(r1, rc, spec, "deepcopy")
+        dc = self._diff(ref, rc, spec, "deepcopy")
         self.count("deepcopy:" + ("same" if dc is None else "differs"))
         if dc is not None:
             out.append(("copy-differs:deepcopy", "a deepcopy of the (reset) model simulates differently: " + dc, {}))
@@ -2062,7 +2066,7 @@ class Judge:
                 out.append(("epanet-rerun-differs", "two consecutive EpanetSimulator runs of the same model differ: " + dee, {}))
             # WNTRSimulator after an EPANET run (no reset in between) still reproduces
             r4 = self._run(wn, spec)
-            d4 = self._diff(r1, r4, spec, "after-epanet")
+            d4 = self._diff(ref, r4, spec, "after-epanet")
             self.count("wntr-after-epanet:" + ("same" if d4 is None else "differs"))
             if d4 is not None:
                 out.append(("rerun-differs-after-EpanetSimulator", "a WNTRSimulator run after an EpanetSimulator run of the reset model differs: " + d4, {}))
